@@ -328,17 +328,19 @@ def c03_outbound(rng, sid, nscen):
             return rng.choice([0, 1, 2, 3]) if ver == 5 else 0
         k = 1
         steps = [connect(k, "sub", ver, clean=(ver == 5), manualack=True, recvmax=rmax(), **exp),
-                 sub(k, [{"n": "o/#", "qos": 2}]), connect(50, "pubr", 4)]
+                 sub(k, [dict({"n": "o/#", "qos": 2}, **({"rap": True} if ver == 5 and rng.random() < 0.5 else {}))]), connect(50, "pubr", 4)]
         n = 0
         for _ in range(rng.randrange(6, 16)):
             r = rng.random()
             if r < 0.45:
                 n += 1
                 q = rng.choice([0, 1, 1, 2, 2])
-                if rng.random() < 0.7:
+                if rng.random() < 0.6:
                     steps.append(api("o/t", q, "o%d" % n))
                 else:
-                    steps.append(pub(50, "o/t", q, "o%d" % n))
+                    # (a publisher that re-sends after losing ITS connection sets DUP: the copies for the subscribers are
+                    # new transmissions all the same)
+                    steps.append(pub(50, "o/t", q, "o%d" % n, **({"dup": True} if q > 0 and rng.random() < 0.4 else {})))
             elif r < 0.75:
                 steps.append({"op": "ack", "k": k, "t": "auto", "sel": rng.randrange(4),
                               "code": 0x80 if (ver == 5 and rng.random() < 0.1) else 0})
